@@ -334,7 +334,8 @@ func (s *clientSocket) sendConnectPacket(authData any) {
 				}
 			}
 		}
-		v = m
+		// The encoder accepts pointers (and structs) only.
+		v = &m
 	} else if authData != nil {
 		v = &authData
 	}
